@@ -117,26 +117,43 @@ world_frame guardRemove : (guardRemove w g p).1 ~ w keeps ev evWaiters procs res
 end
 
 section
-variable (fuel : Nat) (w : World) (g : Nat)
+variable (w : World) (g : Nat)
+world_frame condSignal : (condSignal w g).1 ~ w keeps evWaiters procs res pools bufs oqs pqs conds flags gvars now
+  by (unfold condSignal; zeta; frame_close)
+end
+
+section
+variable (fwd : Bool) (fuel : Nat) (w : World) (g : Nat)
+
+theorem guardSignalF_keeps {β : Type _} (k : World → β)
+    (hfail : ∀ w m, k (World.fail w m) = k w)
+    (hq : ∀ w g q, k (setGuardQ w g q) = k w)
+    (hs : ∀ w a s sig t pri, k (sched w a s sig t pri).1 = k w)
+    (hc : ∀ w g, k (condSignal w g).1 = k w) :
+    ∀ fuel fwd w g, k (guardSignalF fwd fuel w g) = k w := by
+  intro fuel
+  induction fuel with
+  | zero => intro fwd w g; simp [guardSignalF, hfail]
+  | succ n ih =>
+    intro fwd w g
+    unfold guardSignalF
+    split
+    · rfl
+    · rw [foldl_keeps k _ (fun w a => ih true w a)]
+      simp only []
+      repeat' split
+      all_goals simp [hfail, hq, hs, hc]
 
 theorem guardSignal_keeps {β : Type _} (k : World → β)
     (hfail : ∀ w m, k (World.fail w m) = k w)
     (hq : ∀ w g q, k (setGuardQ w g q) = k w)
-    (hs : ∀ w a s sig t pri, k (sched w a s sig t pri).1 = k w) :
-    ∀ fuel w g, k (guardSignal fuel w g) = k w := by
-  intro fuel
-  induction fuel with
-  | zero => intro w g; simp [guardSignal, hfail]
-  | succ n ih =>
-    intro w g
-    unfold guardSignal
-    split
-    · rfl
-    · rw [foldl_keeps k _ (fun w a => ih w a)]
-      simp only []
-      repeat' split
-      all_goals simp [hfail, hq, hs]
+    (hs : ∀ w a s sig t pri, k (sched w a s sig t pri).1 = k w)
+    (hc : ∀ w g, k (condSignal w g).1 = k w) :
+    ∀ fuel w g, k (guardSignal fuel w g) = k w :=
+  fun fuel w g => guardSignalF_keeps k hfail hq hs hc fuel false w g
 
+world_frame guardSignalF : (guardSignalF fwd fuel w g) ~ w keeps evWaiters procs res pools bufs oqs pqs conds flags gvars now
+  by (first | apply guardSignalF_keeps | apply guardSignalF_keeps (fun w => w.ev.now)) <;> (intros; frame_close)
 world_frame guardSignal : (guardSignal fuel w g) ~ w keeps evWaiters procs res pools bufs oqs pqs conds flags gvars now
   by (first | apply guardSignal_keeps | apply guardSignal_keeps (fun w => w.ev.now)) <;> (intros; frame_close)
 world_frame signal : (signal w g) ~ w keeps evWaiters procs res pools bufs oqs pqs conds flags gvars now
